@@ -5,6 +5,7 @@ import hashlib
 import json
 import multiprocessing as mp
 import os
+import re
 import signal
 import subprocess
 import sys
@@ -194,7 +195,7 @@ class Check:
     def _replay(self, rec, n):
         d = os.path.join(VERIF, 'replays', self.pid)
         os.makedirs(d, exist_ok=True)
-        path = os.path.join(d, f"{n:03d}_{rec['key'].replace('/', '_').replace(':', '_')[:60]}.py")
+        path = os.path.join(d, f"{n:03d}_{re.sub(r'[^A-Za-z0-9_.-]+', '_', rec['key'])[:60]}.py")
         body = ("#!/verif/.venv/bin/python\n"
                 "# replay of a solver counterexample against the real, unshadowed code.\n"
                 "# exit 1 = property violated on this input, exit 0 = holds.\n"
